@@ -10,51 +10,8 @@ From Coq Require Import Lia.
 Section SrcKeys.
   Variable tasks : list task.
 
-  Definition key_ok (tn : name) (path : list nat) (v : name) : Prop :=
-    loop_var tasks {| st_task := tn; st_path := path |} = Some v.
-
-  (* every counting loop of the component [x] that stands at the site [k] *)
-  Fixpoint keys_ok (x : xstmt) (k : sinfo) {struct x} : Prop :=
-    match x with
-    | XCall t _ _ body =>
-      (fix blk (l : list xstmt) (i : nat) : Prop :=
-         match l with [] => True | y :: r => keys_ok y (mksi t [] i) /\ blk r (S i) end) body 0
-    | XParallel bs =>
-      (fix blk (l : list xstmt) (i : nat) : Prop :=
-         match l with [] => True | y :: r => keys_ok y (mksi (s_tn k) (s_path k) i) /\ blk r (S i) end) bs 0
-    | XCond _ P F =>
-      (fix blk (l : list xstmt) (i : nat) : Prop :=
-         match l with [] => True | y :: r => keys_ok y (mksi (s_tn k) (s_path k ++ [0]) i) /\ blk r (S i) end) P 0 /\
-      (fix blk (l : list xstmt) (i : nat) : Prop :=
-         match l with [] => True | y :: r => keys_ok y (mksi (s_tn k) (s_path k ++ [1]) i) /\ blk r (S i) end) F 0
-    | XWhile _ B =>
-      (fix blk (l : list xstmt) (i : nat) : Prop :=
-         match l with [] => True | y :: r => keys_ok y (mksi (s_tn k) (s_path k) i) /\ blk r (S i) end) B 0
-    | XCount v _ B =>
-      key_ok (s_tn k) (s_path k) v /\
-      (fix blk (l : list xstmt) (i : nat) : Prop :=
-         match l with [] => True | y :: r => keys_ok y (mksi (s_tn k) (s_path k) i) /\ blk r (S i) end) B 0
-    | _ => True
-    end.
-  Fixpoint keys_block (tn : name) (pre : list nat) (l : list xstmt) (i : nat) : Prop :=
-    match l with [] => True | y :: r => keys_ok y (mksi tn pre i) /\ keys_block tn pre r (S i) end.
-
-  Lemma keys_ok_call : forall t a ins body k, keys_ok (XCall t a ins body) k = keys_block t [] body 0.
-  Proof. intros. cbn [keys_ok]. generalize 0. induction body as [|y r IH]; intro i; [reflexivity|]. cbn [keys_block]. rewrite <- IH. reflexivity. Qed.
-  Lemma keys_ok_par : forall bs k, keys_ok (XParallel bs) k = keys_block (s_tn k) (s_path k) bs 0.
-  Proof. intros. cbn [keys_ok]. generalize 0. induction bs as [|y r IH]; intro i; [reflexivity|]. cbn [keys_block]. rewrite <- IH. reflexivity. Qed.
-  Lemma keys_ok_cond : forall e P F k,
-      keys_ok (XCond e P F) k = (keys_block (s_tn k) (s_path k ++ [0]) P 0 /\ keys_block (s_tn k) (s_path k ++ [1]) F 0).
-  Proof.
-    intros. cbn [keys_ok]. generalize (s_path k ++ [0]) (s_path k ++ [1]). intros q0 q1. f_equal.
-    - generalize 0. induction P as [|y r IH]; intro i; [reflexivity|]. cbn [keys_block]. rewrite <- IH. reflexivity.
-    - generalize 0. induction F as [|y r IH]; intro i; [reflexivity|]. cbn [keys_block]. rewrite <- IH. reflexivity.
-  Qed.
-  Lemma keys_ok_while : forall e B k, keys_ok (XWhile e B) k = keys_block (s_tn k) (s_path k) B 0.
-  Proof. intros. cbn [keys_ok]. generalize 0. induction B as [|y r IH]; intro i; [reflexivity|]. cbn [keys_block]. rewrite <- IH. reflexivity. Qed.
-  Lemma keys_ok_count : forall v l B k,
-      keys_ok (XCount v l B) k = (key_ok (s_tn k) (s_path k) v /\ keys_block (s_tn k) (s_path k) B 0).
-  Proof. intros. cbn [keys_ok]. f_equal. generalize 0. induction B as [|y r IH]; intro i; [reflexivity|]. cbn [keys_block]. rewrite <- IH. reflexivity. Qed.
+  (* Layout.keys_ok, read with the program's own NetModel.loop_var *)
+  Local Instance LVt : LoopVars := loop_var tasks.
 
   (* ---- stmt_at below a statement ---- *)
   Lemma stmt_at_one : forall ss j, stmt_at ss [j] = nth_error ss j.
@@ -122,7 +79,7 @@ Section SrcKeys.
   Definition K_stmt (fu : nat) : Prop :=
     forall tn pre i s x t, unfold_stmt tasks fu tn (pre ++ [i]) s = Ok x -> frag x = true ->
       find_task tn tasks = Some t -> stmt_at (t_body t) (pre ++ [i]) = Some s ->
-      keys_ok x (mksi tn pre i).
+      keys_ok x tn pre i.
 
   Lemma ucall_blk_ublock : forall fu tn ss i, ucall_blk tasks fu tn i ss = ublock tasks fu tn [] i ss.
   Proof. intros fu tn. induction ss as [|s r IH]; intro i; cbn [ucall_blk ublock app]; [reflexivity|]. rewrite IH. reflexivity. Qed.
@@ -147,9 +104,9 @@ Section SrcKeys.
   Qed.
 
   Lemma K_call : forall fu, K_stmt fu ->
-      forall tn pth c x k, udo_call tasks fu tn pth c = Ok x -> frag x = true -> keys_ok x k.
+      forall tn pth c x tn' pre' i', udo_call tasks fu tn pth c = Ok x -> frag x = true -> keys_ok x tn' pre' i'.
   Proof.
-    intros fu HK tn pth c x k H Hf. unfold udo_call in H.
+    intros fu HK tn pth c x tn' pre' i' H Hf. unfold udo_call in H.
     destruct (find_task (c_name c) tasks) as [t|] eqn:Ft; [|discriminate H].
     pose proof (find_task_name _ _ _ Ft) as En.
     apply rbind_ok_inv in H. destruct H as (body & Hb & H). inversion H; subst x. clear H.
@@ -167,39 +124,37 @@ Section SrcKeys.
     - inversion H; subst. exact I.
     - apply rbind_ok_inv in H. destruct H as (x & Hx & H). apply rbind_ok_inv in H. destruct H as (xs' & Hxs & H).
       inversion H; subst xs. clear H. apply frag_brs_cons in Hf. destruct Hf as (_ & Hfx & Hfxs).
-      cbn [keys_block]. split; [apply (K_call fu HK _ _ _ _ _ Hx Hfx)|apply (IH _ _ Hxs Hfxs)].
+      cbn [keys_block]. split; [apply (K_call fu HK _ _ _ _ _ _ _ Hx Hfx)|apply (IH _ _ Hxs Hfxs)].
   Qed.
 
   Theorem K_all : forall fu, K_stmt fu.
   Proof.
     induction fu as [|fu IH]; [intros tn pre i s x t H; discriminate H|].
     intros tn pre i s x t H Hf Ft Hat.
-    assert (Ek1 : s_tn (mksi tn pre i) = tn) by reflexivity.
-    assert (Ek2 : s_path (mksi tn pre i) = pre ++ [i]) by reflexivity.
     set (path := pre ++ [i]) in *.
     destruct (stmt_at_below _ path eq_refl _ _ Hat) as [Bl Bc].
     destruct (unfold_frag_shape _ _ _ _ _ _ H Hf) as [(n & ins & o & ->)|[(c & ->)|[(cs & ->)|[(e & p & fl & ->)|[(e & wb & ->)|(cv & clim & wb & ->)]]]]].
     - rewrite unfold_stmt_S_service in H. inversion H; subst x. exact I.
-    - rewrite unfold_stmt_S_call in H. apply (K_call fu IH _ _ _ _ _ H Hf).
+    - rewrite unfold_stmt_S_call in H. apply (K_call fu IH _ _ _ _ _ _ _ H Hf).
     - rewrite unfold_stmt_S_par in H. apply rbind_ok_inv in H. destruct H as (bs & Hbs & H). inversion H; subst x. clear H.
-      rewrite keys_ok_par. apply (K_calls fu IH _ _ _ _ _ _ _ Hbs (proj2 (frag_par _ Hf))).
+      rewrite keys_ok_par. fold path. apply (K_calls fu IH _ _ _ _ _ _ _ Hbs (proj2 (frag_par _ Hf))).
     - rewrite unfold_stmt_S_cond in H. apply rbind_ok_inv in H. destruct H as (xp & Hp & H).
       apply rbind_ok_inv in H. destruct H as (xf & Hfl & H). inversion H; subst x. clear H.
       assert (Hf2 := Hf). cbn [frag] in Hf2. apply andb_prop in Hf2. destruct Hf2 as [HfP HfaF].
       apply frag_block_all in HfP.
-      rewrite keys_ok_cond, Ek1, Ek2. split.
+      rewrite keys_ok_cond. fold path. split.
       + apply (K_ublk fu IH tn t (path ++ [0]) Ft p 0 xp Hp HfP). intro j. cbn [Nat.add].
         rewrite <- app_assoc. cbn [app]. apply (Bc e p fl j eq_refl).
       + apply (K_ublk fu IH tn t (path ++ [1]) Ft fl 0 xf Hfl HfaF). intro j. cbn [Nat.add].
         rewrite <- app_assoc. cbn [app]. apply (Bc e p fl j eq_refl).
     - rewrite unfold_stmt_S_while in H. apply rbind_ok_inv in H. destruct H as (xb & Hb & H). inversion H; subst x. clear H.
       pose proof (frag_while _ _ Hf) as HfB. apply frag_block_all in HfB.
-      rewrite keys_ok_while, Ek1, Ek2.
+      rewrite keys_ok_while. fold path.
       apply (K_ublk fu IH tn t path Ft wb 0 xb Hb HfB). intro j. cbn [Nat.add]. apply (Bl wb j eq_refl).
     - rewrite unfold_stmt_S_count in H. apply rbind_ok_inv in H. destruct H as (xb & Hb & H). inversion H; subst x. clear H.
       pose proof (frag_count _ _ _ Hf) as HfB. apply frag_block_all in HfB.
-      rewrite keys_ok_count, Ek1, Ek2. split.
-      + unfold key_ok, loop_var. cbn [st_task st_path]. rewrite Ft, Hat. reflexivity.
+      rewrite keys_ok_count. fold path. split.
+      + unfold key_ok, loop_var_of, LVt, loop_var. cbn [st_task st_path]. rewrite Ft, Hat. reflexivity.
       + apply (K_ublk fu IH tn t path Ft wb 0 xb Hb HfB). intro j. cbn [Nat.add]. apply (Bl wb j eq_refl).
   Qed.
 
